@@ -12,13 +12,24 @@
        value); in stream mode a fraction or exponent is refused before storing;
    (2) interface{} destinations accept exactly the RFC 8259 texts whose numbers
        fit float64 (C05), strings are unescaped exactly (C17);
+   (2b) the typed decoding semantics (Model/Decode.v: what Unmarshal does with a
+       document, a destination type and the value the destination holds:
+       null, merged maps, reused pointers / slice elements / struct fields,
+       arrays shorter and longer than the text, repeated and unknown keys,
+       integer ranges) is an executable function that the harness runs beside
+       encoding/json (which validates it) and go-json (op c02.dec); its laws:
+       decoding keeps every value well typed, null clears exactly the nilable
+       kinds, an interface takes the document whatever it held, keys a map held
+       survive;
    (3) the places where agreement hangs on one expression of the source (float
        width, map key parsing, the kinds ,string applies to, null for
        TextUnmarshaler / []byte / json.Number) are what the translator reads. *)
-From Coq Require Import NArith ZArith List Bool.
-From GJ Require Import Base.Bytes Gen.DecodeShapes Model.Int Proofs.IntEncP Proofs.IntScanP.
+From Coq Require Import NArith ZArith List Bool String.
+From GJ Require Import Base.Bytes Gen.DecodeShapes Spec.Json Model.Int Model.Enc Model.Decode Proofs.IntEncP Proofs.IntScanP Proofs.DecodeP.
 From GJ Require Properties.C16.
 Import ListNotations.
+Open Scope string_scope.
+Open Scope list_scope.
 Open Scope N_scope.
 
 Lemma source_decode_shapes :
@@ -55,3 +66,35 @@ Theorem C02_stream_integer_as_buffer : forall signed bits data,
   | _, _ => False
   end.
 Proof. exact C16.C16_stream_agrees_with_buffer. Qed.
+
+(* ---- the typed decoding semantics ---- *)
+(* for every well-formed destination type, document, and well-typed value the destination holds: what decoding
+   leaves there is a value of the type (integers in range, arrays of their length, every field of its type) *)
+Theorem C02_decoding_keeps_values_well_typed : forall f t d init r,
+  wf_ty t = true -> has_type t init = true -> dec f t d init = DOk r -> has_type t r = true.
+Proof. intros f t d init r Hw Hi H. exact (dec_typed f t Hw d init r Hi H). Qed.
+Print Assumptions C02_decoding_keeps_values_well_typed.
+
+Theorem C02_null : forall f t init,
+  dec (S f) t (JLeaf TNull) init =
+  DOk (match t with TIface | TPtr _ | TSlice _ | TMap _ => VNil | _ => init end).
+Proof. intros f t init. destruct t; reflexivity. Qed.
+
+Theorem C02_interface_takes_the_document : forall f d i1 i2, dec f TIface d i1 = dec f TIface d i2.
+Proof. exact dec_iface_ignores_init. Qed.
+
+Theorem C02_map_keeps_its_other_keys : forall f e members m k0 r,
+  In k0 (map fst m) -> dec (S f) (TMap e) (JObj members) (VMap m) = DOk r ->
+  exists m', r = VMap m' /\ In k0 (map fst m').
+Proof. intros f e members m k0 r Hin H. cbn [dec is_null] in H. exact (map_loop_merges (dec f e) (zero e) k0 members m r Hin H). Qed.
+
+(* the statements are about something: a slice of structs keeps the field the document does not mention, a short
+   array is zeroed behind the text, a repeated key decodes twice, an out-of-range integer is an error *)
+Example C02_example :
+  let t := TStruct [([65], TSlice (TStruct [([120], TInt 8); ([121], TString)])); ([66], TArr 3 (TUint 8)); ([67], TPtr (TInt 16))] in
+  let init := VStruct [VSlice [VStruct [VInt 1; VStr [104]]]; VArr [VInt 7; VInt 8; VInt 9]; VNil] in
+  wf_ty t = true /\ has_type t init = true /\
+  unmarshal_typed t (str "{""A"":[{""x"":5},{""y"":""z""}],""B"":[4],""C"":1,""C"":-2,""zz"":[1]}") init =
+    str "OR3:L2:R2:I1:5S1:hR2:I1:0S1:zA3:I1:4I1:0I1:0PI2:-2" /\
+  unmarshal_typed t (str "{""A"":[{""x"":128}]}") init = [69].
+Proof. vm_compute. repeat split; reflexivity. Qed.
